@@ -301,3 +301,25 @@ def show(spec, stack=('x', 'y'), scheme='s'):
     Q, Sg, Gm, T, q0, F = parts(spec, stack, scheme)
     return {'Q': Q, 'Sigma': Sg, 'Gamma': Gm, 'q0': q0, 'F': F,
             'transitions': sorted('{} -{},{}->{} {}'.format(p, a or 'ε', u or 'ε', v or 'ε', q) for (p, a, u, q, v) in T)}
+
+
+_LIVE = {}
+
+
+def morph(spec, stack=('x', 'y'), scheme='s', eps='_'):
+    """One live PDA rewritten in place for every instance (see spaces.morph_nfa)."""
+    Q, Sg, Gm, T, q0, F = parts(spec, stack, scheme)
+    P = _LIVE.get('pda')
+    if P is None:
+        P = _LIVE['pda'] = build(spec, stack, scheme, eps)
+        return P
+    P.Q.clear(); P.Q.update(Q)
+    P.Sigma.clear(); P.Sigma.update(Sg)
+    P.Gamma.clear(); P.Gamma.update(Gm)
+    P.delta.clear()
+    for (p, a, u, q, v) in T:
+        P.delta[p, a or eps, u or eps].add((q, v or eps))
+    P.q0 = q0
+    P.F.clear(); P.F.update(F)
+    P.epsilon = eps
+    return P
